@@ -40,7 +40,7 @@ func runC15(c *Ctx) {
 			h := hand[0].Call
 			var set, commit, write ssa.CallInstruction
 			for _, s := range CallsIn(forge, "(*db/diffdb.Database).Set") {
-				if strings.Contains(T(s.Call.Common().Args[2]).String(), "GeneratorInfo).Encode") {
+				if strings.Contains(T(ArgK(s.Call, 2)).String(), "GeneratorInfo).Encode") {
 					set = s.Call
 				}
 			}
@@ -53,17 +53,17 @@ func runC15(c *Ctx) {
 			ok := set != nil && commit != nil && write != nil && instrDominates(set, commit) && instrDominates(commit, write) && instrDominates(write, h)
 			c.Require("C15.R1 persist-before-publish", FuncKey(forge)+": Set ≺ Commit ≺ Write ≺ AddInternal", p.InstrPos(h), "the largest generated height is durable before the block leaves the generator", ok, "")
 			if ok {
-				sameBatch := stripConv(commit.Common().Args[1]) == stripConv(write.Common().Args[1])
+				sameBatch := stripConv(ArgK(commit, 1)) == stripConv(ArgK(write, 1))
 				c.Require("C15.R1 persist-before-publish", FuncKey(forge)+": one batch", p.InstrPos(write), "the batch committed is the batch written", sameBatch, "")
 				// the store committed is the one the info was set on (a view of it)
-				root := T(commit.Common().Args[0]).String()
-				on := T(set.Common().Args[0]).String()
+				root := T(ArgK(commit, 0)).String()
+				on := T(ArgK(set, 0)).String()
 				c.Require("C15.R1 persist-before-publish", FuncKey(forge)+": same staged store", p.InstrPos(commit), "the info is set on (a view of) the store that is committed", strings.Contains(on, root), on+" vs "+root)
 				// keyed by the signed block's generator
-				k := T(set.Common().Args[1]).String()
+				k := T(ArgK(set, 1)).String()
 				c.Require("C15.R1 persist-before-publish", FuncKey(forge)+": key", p.InstrPos(set), "the record is keyed by the forged block's generator address", strings.HasSuffix(k, ".Header.GeneratorAddress"), k)
 				// the block handed over is the sealed one
-				c.Require("C15.R1 persist-before-publish", FuncKey(forge)+": block", p.InstrPos(h), "the block handed over is the result of sealBlock", strings.Contains(T(h.Common().Args[0]).String(), "sealBlock("), "")
+				c.Require("C15.R1 persist-before-publish", FuncKey(forge)+": block", p.InstrPos(h), "the block handed over is the result of sealBlock", strings.Contains(T(ArgK(h, 0)).String(), "sealBlock("), "")
 			}
 		}
 	}
@@ -76,7 +76,7 @@ func runC15(c *Ctx) {
 		// the record decoded is this generator's: Get(generatorAddress param) → Decode
 		okRec := false
 		for _, s := range CallsIn(initH, "(*generator.GeneratorInfo).Decode") {
-			d := T(s.Call.Common().Args[1]).String()
+			d := T(ArgK(s.Call, 1)).String()
 			okRec = strings.Contains(d, "Database).Get(") && strings.Contains(d, ", p2)#0")
 		}
 		c.Require("C15.R2 header-provenance", FuncKey(initH)+": own record", p.Pos(initH.Pos()), "the info decoded is the record stored under this generator's address", okRec, "")
@@ -150,7 +150,7 @@ func runC15(c *Ctx) {
 				}
 			}
 			c.Require("C15.R3 seal", FuncKey(seal)+": sign last", p.InstrPos(sg), "every header field is assigned before the signature is computed", late == "" && n >= 5, "assigned after Sign: "+late)
-			c.Require("C15.R3 seal", FuncKey(seal)+": chain id", p.InstrPos(sg), "signed for this chain's ID", strings.HasSuffix(T(sg.Common().Args[1]).Sym, "Chain).ChainID"), "")
+			c.Require("C15.R3 seal", FuncKey(seal)+": chain id", p.InstrPos(sg), "signed for this chain's ID", strings.HasSuffix(T(ArgK(sg, 1)).Sym, "Chain).ChainID"), "")
 		}
 		// assets sorted before the root, tx ids of the included txs
 		srt := CallsIn(seal, "(*blockchain.BlockAssets).Sort")
@@ -270,9 +270,9 @@ func runC15(c *Ctx) {
 		}
 		// the state root sealed is the dry-run commit's result
 		for _, s := range CallsIn(forge, "(*generator.Generator).sealBlock") {
-			sr := T(s.Call.Common().Args[5]).String()
+			sr := T(ArgK(s.Call, 5)).String()
 			c.Require("C15.R4 forge-phase-order", FuncKey(forge)+": state root", p.InstrPos(s.Call), "the sealed state root is the one the dry-run commit returned", strings.Contains(sr, "stateExecuter).Commit("), sr)
-			tx := T(s.Call.Common().Args[2]).String()
+			tx := T(ArgK(s.Call, 2)).String()
 			c.Require("C15.R4 forge-phase-order", FuncKey(forge)+": transactions", p.InstrPos(s.Call), "the sealed transactions are the size-limited selection", strings.Contains(tx, "limitTransactionsWithSize("), tx)
 		}
 	}
